@@ -165,7 +165,8 @@ def fixture_cases(ctx, rnd):
     return out
 
 
-DEGENERATE = [b'', b'\n', b'-- only a comment\n', b'   \n\t\n', b'x=1', b'x=1\r\n', b'-- c', b'//c\n\n\n', b'x=1\n\n\n\n', b'x=1 ', b'x=1  ', b'x=1\t']
+DEGENERATE = [b'', b'\n', b'-- only a comment\n', b'   \n\t\n', b'x=1', b'x=1\r\n', b'-- c', b'//c\n\n\n', b'x=1\n\n\n\n', b'x=1 ', b'x=1  ', b'x=1\t',
+              b'a = 1\n-- the end', b'x=1\n\n-- e1\n//e2', b'x=1 --[[c]]', b'x=1\n--[[m\nn]]']
 NEWER = [b'a |= 1\n', b'a \\= 2\n', b'?x,y\n', b'a=b=c\n', b'x = 1 y == 2\n', b'if (a) b=1 else\nc=2\n', b'while (a) b=1\nc=2\n',
          b'f() ) g()\n', b'x = {1,2,,}\n', b'local a <const> = 1\n', b'a ^^= 1\n', b'a >>>= 1\n', b'x=1 end y=2\n']
 
